@@ -10,14 +10,14 @@ import (
 )
 
 type Finding struct {
-	ID         string `json:"id"`
-	Property   string `json:"property"`
+	ID         string   `json:"id"`
+	Property   string   `json:"property"`
 	Properties []string `json:"properties"`
-	Obligation string `json:"obligation"`
-	Except     string `json:"except"`
-	At         string `json:"at,omitempty"` // "site": the except predicate is stated over the call-site state in the callee's parameter names
-	What       string `json:"what"`
-	Status     string `json:"status"`
+	Obligation string   `json:"obligation"`
+	Except     string   `json:"except"`
+	At         string   `json:"at,omitempty"` // "site": the except predicate is stated over the call-site state in the callee's parameter names
+	What       string   `json:"what"`
+	Status     string   `json:"status"`
 }
 
 func main() {
@@ -71,6 +71,7 @@ func cmdFunc(args []string) {
 	only := fs.String("only", "", "obligation regexp")
 	verbose := fs.Bool("v", false, "")
 	stats := fs.Bool("stats", false, "")
+	model := fs.Bool("model", false, "print counterexample models")
 	fs.Parse(args)
 	P, err := loadProgram(*repo)
 	if err != nil {
@@ -81,6 +82,13 @@ func cmdFunc(args []string) {
 		os.Exit(2)
 	}
 	opts := &VerifyOpts{WorkDir: "/verif/.work/func", TimeoutS: *to, Agree: 1}
+	if kf, err := loadFindings("/verif/known_findings.json"); err == nil {
+		for _, f := range kf.Findings {
+			if f.Status == "open" {
+				opts.Findings = append(opts.Findings, f)
+			}
+		}
+	}
 	if *only != "" {
 		opts.OnlyObl = regexp.MustCompile(*only)
 	}
@@ -104,7 +112,23 @@ func cmdFunc(args []string) {
 					continue
 				}
 				if *verbose || (or.Status != "discharged" && or.Status != "cover-ok" && or.Status != "cover-notrefuted") {
+					if or.Status == "known" {
+						fmt.Printf("   known         %s (%s)\n", or.Obl.Name, or.Obl.Finding.ID)
+						continue
+					}
 					fmt.Printf("   %-13s %-60s %s [%s %dms] %s\n", or.Status, or.Obl.Name, or.Obl.Pos, or.Solve.Backend, or.Solve.Millis, or.Obl.Src)
+					if *model && len(or.Model) > 0 {
+						var ks []string
+						for k := range or.Model {
+							ks = append(ks, k)
+						}
+						sort.Strings(ks)
+						for _, k := range ks {
+							if !strings.Contains(k, "[") || strings.Contains(k, "[0]") || strings.Contains(k, "[1]") {
+								fmt.Printf("        %s = %s\n", k, or.Model[k])
+							}
+						}
+					}
 				}
 			}
 			n := 0
@@ -113,7 +137,7 @@ func cmdFunc(args []string) {
 					fmt.Println("   (nil result)")
 					continue
 				}
-				if or.Status == "discharged" || or.Status == "cover-ok" || or.Status == "cover-notrefuted" {
+				if or.Status == "discharged" || or.Status == "cover-ok" || or.Status == "cover-notrefuted" || or.Status == "known" {
 					n++
 				}
 			}
@@ -148,7 +172,6 @@ func cmdFunc(args []string) {
 		}
 	}
 }
-
 
 func cmdLemma(args []string) {
 	P, err := loadProgram("/repo")
